@@ -121,6 +121,9 @@ func (P *Prog) VerifyFunc(f *ssa.Function, c *Contract) *Trans {
 		t.evalTerms = append(t.evalTerms, r)
 	}
 	for _, e := range c.Ensures {
+		if e.Kind == "ensures-assumed" {
+			continue // assumed at call sites, not proved here: listed in the evidence as an assumption
+		}
 		g := post.expandBool(e.Expr)
 		t.oblige("post", fmt.Sprintf("%s#post.%s", fr.path, labelOr(e.Label, "ens")), tagsOr(e.Tags, fr.tags), retCond, g, f.Pos(), "postcondition "+e.Label)
 	}
@@ -193,6 +196,13 @@ func (t *Trans) Header() string {
        (=> ((_ is vslice) v) (and (slice_wf (lval v)) (<= (rid (sbase (lval v))) a)))
        (=> ((_ is vfunc) v) (<= (rid (fenv (nval v))) a))))
 `)
+	for _, m := range t.P.usedModules(t.uses) {
+		for _, tn := range t.P.modStructs[m] {
+			if typ := t.P.typeByName(tn); typ != nil {
+				t.env.SortOf(typ)
+			}
+		}
+	}
 	b.WriteString(t.env.StructDecls())
 	mods := t.expandLits(t.P.preludeText(t.uses))
 	b.WriteString(t.env.TypeTable())
